@@ -18,13 +18,18 @@ class Ctx(object):
         self.types = Types(self.prog)
         self.depth = 3 if tier == "quick" else 5
         self._cache = {}
+        self._keep = []
         self.stats = {"functions_run": 0, "paths": 0, "calls_resolved": 0, "calls_unresolved": 0, "calls_approx": 0, "truncated": 0}
         self.analysed = set()
+        self._proto = None
+        from . import roles as _roles
+        _roles.proto(self)  # marks the callback dispatcher before any inlining policy is consulted
 
     def paths(self, fi, self_cls=None, depth=None, pre=None, **cfgkw):
         """memoised path enumeration.  pre: tuple of (term, value) pairs = initial heap"""
         depth = self.depth if depth is None else depth
         key = (fi.key, self_cls.key if self_cls else None, depth, pre, tuple(sorted((k, id(v) if callable(v) else v) for k, v in cfgkw.items())))
+        self._keep.extend(v for v in cfgkw.values() if callable(v))  # ids in the key must stay unique
         if key in self._cache:
             return self._cache[key]
         cfg = Config(maxdepth=depth, **cfgkw)
